@@ -37,6 +37,28 @@ func c37WithRand(rnd []byte, f func()) {
 	f()
 }
 
+// c37Snap remembers the contents of caller-owned slices; changed() reports whether a public
+// call wrote through any of them (observable " !mut").
+type c37Snap struct{ refs, copies [][]byte }
+
+func c37Snapshot(ss ...[]byte) *c37Snap {
+	sn := &c37Snap{}
+	for _, x := range ss {
+		sn.refs = append(sn.refs, x)
+		sn.copies = append(sn.copies, append([]byte{}, x...))
+	}
+	return sn
+}
+
+func (sn *c37Snap) changed() string {
+	for i := range sn.refs {
+		if !bytes.Equal(sn.refs[i], sn.copies[i]) {
+			return " !mut"
+		}
+	}
+	return ""
+}
+
 func c37Pw2(pw []byte, tok string) []byte {
 	if tok == "=" {
 		return pw
@@ -167,6 +189,7 @@ func c37File(scheme string, kb, pw, pw2, rnd []byte, fm string) string {
 	path := c37TmpFile()
 	defer os.Remove(path)
 	var werr error
+	sn := c37Snapshot(kb, pw, pw2, pk.Encode())
 	c37WithRand(rnd, func() { werr = EncryptAndWriteToFile(path, pk, pw) })
 	if werr != nil {
 		if len(rnd) < 12 {
@@ -259,10 +282,172 @@ func c37File(scheme string, kb, pw, pw2, rnd []byte, fm string) string {
 			return "safe"
 		}
 		return res
-	})
+	}) + sn.changed()
+}
+
+// c37RunSeq runs several decryptions against ONE stored ciphertext (the same in-memory buffer for
+// the raw/key paths, the same file for the file path).  Line:
+//
+//	seq enc <msg> <pw> <rnd>|op;op;…      seq key <scheme> <kb> <pw> <rnd>|…     seq file <scheme> <kb> <pw> <rnd>|…
+//	op = d <pw2>            decrypt the stored buffer/file itself
+//	   | t <pw2> <mut>      decrypt a tampered COPY of it
+//
+// Output: <len> <n>|o1;o2;…  each o = outcome [!mut] [!alias]; !mut = a caller-owned slice (stored
+// buffer, password, key bytes) or the stored file changed during the call; !alias = the bytes of the
+// first key/plaintext handed out changed afterwards.
+func c37RunSeq(line string) string {
+	parts := strings.SplitN(line, "|", 2)
+	if len(parts) != 2 {
+		return "bad-op"
+	}
+	h := strings.Split(parts[0], " ")
+	var ops [][]string
+	for _, o := range strings.Split(parts[1], ";") {
+		of := strings.Split(o, " ")
+		if !((of[0] == "d" && len(of) == 2) || (of[0] == "t" && len(of) == 3)) {
+			return "bad-op"
+		}
+		ops = append(ops, of)
+	}
+	var kind, scheme string
+	var orig, pw, rnd []byte
+	switch {
+	case len(h) == 5 && h[1] == "enc":
+		kind, orig, pw, rnd = "enc", vhUnhex(h[2]), vhUnhex(h[3]), vhUnhex(h[4])
+	case len(h) == 6 && (h[1] == "key" || h[1] == "file"):
+		kind, scheme, orig, pw, rnd = h[1], h[2], vhUnhex(h[3]), vhUnhex(h[4]), vhUnhex(h[5])
+	default:
+		return "bad-op"
+	}
+	var pk crypto.PrivateKey
+	var err error
+	if kind != "enc" {
+		if pk, err = c37NewKey(scheme, orig); err != nil {
+			return "kerr"
+		}
+	}
+	origCopy := append([]byte{}, orig...)
+	var stored []byte // raw/key path: THE buffer every `d` op decrypts
+	var path, path2 string
+	var raw0 []byte
+	sn := c37Snapshot(orig, pw)
+	switch kind {
+	case "enc":
+		c37WithRand(rnd, func() { stored, err = Encrypt(orig, pw) })
+	case "key":
+		c37WithRand(rnd, func() { stored, err = EncryptPrivateKey(pk, pw) })
+	case "file":
+		path, path2 = c37TmpFile(), c37TmpFile()
+		defer os.Remove(path)
+		defer os.Remove(path2)
+		c37WithRand(rnd, func() { err = EncryptAndWriteToFile(path, pk, pw) })
+	}
+	if err != nil {
+		return "eerr" + sn.changed()
+	}
+	var ks EncryptedKeystore
+	if kind == "file" {
+		if raw0, err = os.ReadFile(path); err != nil {
+			return "harness-read"
+		}
+		if err := json.Unmarshal(raw0, &ks); err != nil {
+			return "harness-json"
+		}
+		stored = ks.Ciphertext
+	}
+	stored0 := append([]byte{}, stored...)
+	head := c37Shape(stored, rnd) + sn.changed()
+	var first []byte     // bytes of the first plaintext / key handed out (the live slice)
+	var firstCopy []byte // what they were when handed out
+	var firstKey crypto.PrivateKey
+	outs := make([]string, 0, len(ops))
+	for _, of := range ops {
+		pw2 := c37Pw2(pw, of[1])
+		target := stored
+		if of[0] == "t" {
+			var ok bool
+			if target, ok = c37Mutate(stored0, of[2]); !ok {
+				return "bad-op"
+			}
+		}
+		g := c37Snapshot(stored, target, pw, pw2, orig)
+		var gotB []byte
+		var gotK crypto.PrivateKey
+		res := vhCatch(func() string {
+			switch kind {
+			case "enc":
+				m, err := Decrypt(target, pw2)
+				if err == nil {
+					gotB = m
+				}
+				return c37ShowB(m, err, origCopy)
+			case "key":
+				k, err := DecryptPrivateKey(target, pw2, scheme)
+				if err == nil {
+					gotK = k
+				}
+				return c37ShowK(k, err, scheme, origCopy)
+			default:
+				p := path
+				if of[0] == "t" {
+					k2 := ks
+					k2.Ciphertext = target
+					data, err := json.MarshalIndent(&k2, "", "\t")
+					if err != nil {
+						return "harness-marshal"
+					}
+					if err := os.WriteFile(path2, append(data, '\n'), 0600); err != nil {
+						return "harness-write"
+					}
+					p = path2
+				}
+				k, err := ReadFromFileAndDecrypt(p, pw2)
+				if err == nil {
+					gotK = k
+				}
+				return c37ShowK(k, err, scheme, origCopy)
+			}
+		})
+		res += g.changed()
+		if !bytes.Equal(stored, stored0) && !strings.Contains(res, "!mut") {
+			res += " !mut"
+		}
+		if kind == "file" {
+			if now, err := os.ReadFile(path); err != nil || !bytes.Equal(now, raw0) {
+				if !strings.Contains(res, "!mut") {
+					res += " !mut"
+				}
+			}
+		}
+		// aliasing: the first result handed out must keep its bytes
+		if first != nil || firstKey != nil {
+			cur := first
+			if firstKey != nil {
+				cur = firstKey.Encode()
+			}
+			if !bytes.Equal(cur, firstCopy) {
+				res += " !alias"
+			}
+		} else if gotB != nil || gotK != nil {
+			first, firstKey = gotB, gotK
+			if gotK != nil {
+				firstCopy = append([]byte{}, gotK.Encode()...)
+			} else {
+				firstCopy = append([]byte{}, gotB...)
+				if first == nil {
+					first = []byte{}
+				}
+			}
+		}
+		outs = append(outs, res)
+	}
+	return head + "|" + strings.Join(outs, ";")
 }
 
 func c37Run(line string) string {
+	if strings.HasPrefix(line, "seq ") {
+		return c37RunSeq(line)
+	}
 	f := strings.Split(line, " ")
 	switch {
 	case f[0] == "const" && len(f) == 1:
@@ -274,18 +459,20 @@ func c37Run(line string) string {
 		pw2 := c37Pw2(pw, f[3])
 		var ct []byte
 		var err error
+		sn := c37Snapshot(msg, pw)
 		c37WithRand(rnd, func() { ct, err = Encrypt(msg, pw) })
 		if err != nil {
-			return "eerr"
+			return "eerr" + sn.changed()
 		}
 		mct, ok := c37Mutate(ct, f[5])
 		if !ok {
 			return "bad-op"
 		}
+		sn = c37Snapshot(msg, pw, pw2, mct, ct)
 		return c37Shape(ct, rnd) + " " + vhCatch(func() string {
 			m, err := Decrypt(mct, pw2)
 			return c37ShowB(m, err, msg)
-		})
+		}) + sn.changed()
 	case f[0] == "key" && len(f) == 8:
 		kb, pw, rnd := vhUnhex(f[2]), vhUnhex(f[3]), vhUnhex(f[5])
 		pw2 := c37Pw2(pw, f[4])
@@ -294,18 +481,20 @@ func c37Run(line string) string {
 			return "kerr"
 		}
 		var ct []byte
+		sn := c37Snapshot(kb, pw, pk.Encode())
 		c37WithRand(rnd, func() { ct, err = EncryptPrivateKey(pk, pw) })
 		if err != nil {
-			return "eerr"
+			return "eerr" + sn.changed()
 		}
 		mct, ok := c37Mutate(ct, f[7])
 		if !ok {
 			return "bad-op"
 		}
+		sn = c37Snapshot(kb, pw, pw2, mct, ct, pk.Encode())
 		return c37Shape(ct, rnd) + " " + vhCatch(func() string {
 			k, err := DecryptPrivateKey(mct, pw2, c37Kt(f[6]))
 			return c37ShowK(k, err, f[1], kb)
-		})
+		}) + sn.changed()
 	case f[0] == "file" && len(f) == 7:
 		kb, pw, rnd := vhUnhex(f[2]), vhUnhex(f[3]), vhUnhex(f[5])
 		return c37File(f[1], kb, pw, c37Pw2(pw, f[4]), rnd, f[6])
@@ -320,27 +509,30 @@ func c37Run(line string) string {
 		}
 		a := append(append([]byte{}, c2[:12]...), c1[12:]...)
 		b := append(append([]byte{}, c1[:12]...), c2[12:]...)
+		sn := c37Snapshot(a, b, pw, msg, c1, c2)
 		return vhCatch(func() string {
 			m, err := Decrypt(a, pw)
 			return c37ShowB(m, err, msg)
 		}) + " " + vhCatch(func() string {
 			m, err := Decrypt(b, pw)
 			return c37ShowB(m, err, msg)
-		})
+		}) + sn.changed()
 	case f[0] == "dec" && len(f) == 3:
 		data, pw := vhUnhex(f[1]), vhUnhex(f[2])
 		data = data[:len(data):len(data)]
+		sn := c37Snapshot(data, pw)
 		return vhCatch(func() string {
 			m, err := Decrypt(data, pw)
 			return c37ShowB(m, err, nil)
-		})
+		}) + sn.changed()
 	case f[0] == "deck" && len(f) == 4:
 		data, pw := vhUnhex(f[1]), vhUnhex(f[2])
 		data = data[:len(data):len(data)]
+		sn := c37Snapshot(data, pw)
 		return vhCatch(func() string {
 			k, err := DecryptPrivateKey(data, pw, c37Kt(f[3]))
 			return c37ShowK(k, err, "", nil)
-		})
+		}) + sn.changed()
 	}
 	return "bad-op"
 }
@@ -476,7 +668,49 @@ func c37GenRnd(r *vhRng) []byte {
 
 var c37Types = []string{"ed25519", "sr25519", "secp256k1", "", "unknown", "ED25519", "Sr25519", "secp256k1 ", "gran", "babe"}
 
+// c37GenSeq draws 2..5 decryptions against one stored ciphertext: right password, near-miss
+// password, tampered copy, in every order (always ending with the right password on the buffer).
+func c37GenSeq(r *vhRng, pw []byte, n int) string {
+	k := 1 + r.Intn(4)
+	ops := make([]string, 0, k+1)
+	for i := 0; i < k; i++ {
+		switch r.Intn(4) {
+		case 0:
+			ops = append(ops, "d =")
+		case 1:
+			ops = append(ops, "d "+c37GenPw2(r, pw, false))
+		case 2:
+			ops = append(ops, "t = "+c37GenMut(r, n))
+		default:
+			ops = append(ops, "t "+c37GenPw2(r, pw, false)+" "+c37GenMut(r, n))
+		}
+	}
+	if r.Chance(5, 6) {
+		ops = append(ops, "d =")
+	}
+	return strings.Join(ops, ";")
+}
+
 func c37Gen(r *vhRng) string {
+	if r.Chance(1, 7) {
+		scheme := c37Schemes[r.Intn(3)]
+		pw := c37GenPw(r)
+		if len(pw) > 200 {
+			pw = pw[:r.Pick(100, 129, 200)]
+		}
+		rnd := r.Bytes(12)
+		switch r.Intn(5) {
+		case 0:
+			msg := r.Bytes(r.Pick(0, 1, 16, 31, 32, 33, 64))
+			return fmt.Sprintf("seq enc %s %s %s|%s", vhHex(msg), vhHex(pw), vhHex(rnd), c37GenSeq(r, pw, 28+len(msg)))
+		case 1, 2:
+			kb := c37GenKey(r, scheme)
+			return fmt.Sprintf("seq key %s %s %s %s|%s", scheme, vhHex(kb), vhHex(pw), vhHex(rnd), c37GenSeq(r, pw, 28+len(kb)))
+		default:
+			kb := c37GenKey(r, scheme)
+			return fmt.Sprintf("seq file %s %s %s %s|%s", scheme, vhHex(kb), vhHex(pw), vhHex(rnd), c37GenSeq(r, pw, 28+len(kb)))
+		}
+	}
 	scheme := c37Schemes[r.Intn(3)]
 	pw := c37GenPw(r)
 	rnd := c37GenRnd(r)
